@@ -112,6 +112,13 @@ def run(tier):
     npipes = 60 if not thor else 700
     for k in range(npipes):
         steps, info = gen_pipeline(rng, tier)
+        if k % 6 == 5:
+            # two validation steps that BOTH fill occlusions / mismatches (a pixel occluded in both passes already carries bit 4 or 5)
+            di = [i for i, (nm, _) in enumerate(steps) if nm == "disparity"][0]
+            m1, m2 = [("mc-cnn", "mc-cnn"), ("sgm", "sgm"), ("mc-cnn", "sgm"), ("sgm", "mc-cnn")][(k // 6) % 4]
+            steps = steps[:di + 1] + [("validation", {"validation_method": "cross_checking_accurate", "cross_checking_threshold": 0.0, "interpolated_disparity": m1}),
+                                      ("validation.1", {"validation_method": "cross_checking_accurate", "cross_checking_threshold": 0.0, "interpolated_disparity": m2})]
+            info["has_val"] = True
         win, s = info["win"], info["s"]
         a = int(rng.randint(-3, 2))
         b = a + int(rng.randint(1, 5))
